@@ -16,10 +16,11 @@ Open Scope N_scope.
 Record quirks := MkQuirks {
   q_keep_pending : bool;          (* D18a: a new assembly start leaves Store.pendingSnapshot in place *)
   q_splitters_accumulate : bool;  (* D30: every start appends to Store.sourceSplitters; finishSnapshot panics unless exactly one *)
-  q_keep_slot : bool              (* D18b: Operator.HandleDeploy leaves o.checkpoint in place *)
+  q_keep_slot : bool;             (* D18b: Operator.HandleDeploy leaves o.checkpoint in place *)
+  q_keep_savepoint : bool         (* seeded C15-3: AbortPendingCheckpoint keeps a pending snapshot flagged as a savepoint *)
 }.
-Definition current : quirks := MkQuirks false false false.
-Definition original : quirks := MkQuirks true true true.
+Definition current : quirks := MkQuirks false false false false.
+Definition original : quirks := MkQuirks true true true false.
 
 Inductive status := Init | Paused | Starting | Running.
 Definition status_code (s : status) : N :=
@@ -44,7 +45,8 @@ Definition hb_get (k : key) (m : hbmap) : option N :=
   match find (fun e => key_eqb (fst e) k) m with Some e => Some (snd e) | None => None end.
 
 (* ---------- snapshot store *)
-Record pending := MkPending { p_id : N; p_ops : list (N * bool); p_srs : list (N * bool) }.
+Record pending := MkPending { p_id : N; p_ops : list (N * bool); p_srs : list (N * bool);
+                              p_sp : bool (* jobSnapshot.isSavepoint *) }.
 Record store := MkStore { pend : option pending; completed : N (* 0 = none *); ctr : N; splitters : N }.
 
 Record st := MkSt {
@@ -98,7 +100,12 @@ Definition start_begin (c : cfg) (s : st) : st * list dep :=
   let ao := firstn (wc c) (ops s) in
   let ar := firstn (wc c) (srs s) in
   let so := sto s in
-  let so' := MkStore (if q_keep_pending (qk c) then pend so else None) (completed so) (ctr so)
+  let kept := if q_keep_pending (qk c) then pend so
+              else match pend so with
+                   | Some p => if q_keep_savepoint (qk c) && p_sp p then Some p else None
+                   | None => None
+                   end in
+  let so' := MkStore kept (completed so) (ctr so)
                      (if q_splitters_accumulate (qk c) then splitters so + 1 else 1) in
   (MkSt (now s) (ops s) (srs s) (hb s) Starting ao ar (completed so) so',
    [MkDep ao ar (map (fun _ => completed so) ao) true]).
@@ -130,8 +137,19 @@ Definition create_checkpoint (so : store) (o r : list N) : store * option N :=
   match pend so with
   | Some _ => (so, None)
   | None => let id := ctr so + 1 in
-            (MkStore (Some (MkPending id (map (fun n => (n, false)) o) (map (fun n => (n, false)) r)))
+            (MkStore (Some (MkPending id (map (fun n => (n, false)) o) (map (fun n => (n, false)) r) false))
                      (completed so) id (splitters so), Some id)
+  end.
+
+(* Store.CreateSavepoint: (store, Some (id, created)) or None = "savepoint already in-progress" *)
+Definition create_savepoint (so : store) (o r : list N) : store * option (N * bool) :=
+  match pend so with
+  | Some p => if p_sp p then (so, None)
+              else (MkStore (Some (MkPending (p_id p) (p_ops p) (p_srs p) true)) (completed so) (ctr so) (splitters so),
+                    Some (p_id p, false))
+  | None => let id := ctr so + 1 in
+            (MkStore (Some (MkPending id (map (fun n => (n, false)) o) (map (fun n => (n, false)) r) true))
+                     (completed so) id (splitters so), Some (id, true))
   end.
 
 (* the tail of AddOperatorSnapshot / AddSourceSnapshot: finishSnapshot when complete *)
@@ -147,7 +165,7 @@ Definition ack_op (so : store) (n id : N) : store * N * N :=
   | Some p =>
       if negb (p_id p =? id) then (so, 1, 0)
       else let p' := match mark n (p_ops p) with
-                     | Some l => MkPending (p_id p) l (p_srs p)
+                     | Some l => MkPending (p_id p) l (p_srs p) (p_sp p)
                      | None => p                      (* unknown / repeated operator: logged only *)
                      end in
            finish_if_complete so p'
@@ -159,7 +177,7 @@ Definition ack_sr (so : store) (n id : N) : store * N * N :=
   | Some p =>
       if negb (p_id p =? id) then (so, 1, 0)
       else match mark n (p_srs p) with
-           | Some l => finish_if_complete so (MkPending (p_id p) (p_ops p) l)
+           | Some l => finish_if_complete so (MkPending (p_id p) (p_ops p) l (p_sp p))
            | None => (so, 1, 0)                       (* unknown / repeated runner: rejected *)
            end
   end.
@@ -171,6 +189,7 @@ Inductive op :=
 | OAdv (ms : N)                         (* the clock advances; nothing is evaluated *)
 | OFin (ok : bool)                      (* the start in flight ends: every Deploy returned / one failed *)
 | OTick                                 (* the checkpoint ticker fires (it exists only while Running) *)
+| OSavepoint                            (* Job.HandleCreateSavepoint: o_cid = the id returned, o_res = 1 on error *)
 | OAckOp (n id : N) | OAckSr (n id : N).
 
 Definition mk_obs (s : st) (ds : list dep) : obs := MkObs (status_code (stat s)) ds [] 0 0 0 0.
@@ -210,6 +229,17 @@ Definition step (c : cfg) (s : st) (o : op) : st * obs :=
           | (_, None) => (s, mk_obs s [])
           end
       | _ => (s, mk_obs s [])
+      end
+  | OSavepoint =>
+      match stat s with
+      | Running =>
+          match create_savepoint (sto s) (a_ops s) (a_srs s) with
+          | (so, Some (id, created)) =>
+              let s1 := set_sto s so in
+              (s1, MkObs (status_code (stat s1)) [] (if created then a_srs s else []) id 0 0 0)
+          | (_, None) => (s, MkObs (status_code (stat s)) [] [] 0 1 0 0)
+          end
+      | _ => (s, MkObs (status_code (stat s)) [] [] 0 1 0 0)
       end
   | OAckOp n id =>
       let '(so, res, pub) := ack_op (sto s) n id in
